@@ -268,6 +268,34 @@ def main():
         obs.append(Obligation("MHKernel(da_tune_step_size=False): transitions never change the tuning state", [e_tr], never, signature="MHKernel:notune"))
         chk.functions += ["liesel.goose.mh_kernel.MHKernel.transition (tuning off)"]
 
+    # init_state: the configured initial step size (and inverse mass matrix: identity / ones by default, the user's otherwise) is where adaptation starts
+    # (concrete observation on the real kernels; the traced obligations above start from an arbitrary state)
+    import liesel.goose as gs
+    for kind in kinds:
+        for given in ((False, True) if kind in ("hmc", "nuts") else (False,)):
+            for diag in ((True, False) if kind in ("hmc", "nuts") else (True,)):
+                def init_facts(kind=kind, given=given, diag=diag):
+                    kw = {}
+                    if kind in ("hmc", "nuts"):
+                        kw["mm_diag"] = diag
+                        if given:
+                            kw["initial_inverse_mass_matrix"] = (jnp.array([0.5, 2.0, 3.0]) if diag else jnp.diag(jnp.array([0.5, 2.0, 3.0])) + 0.1)
+                    k = K.make_kernel(kind, **kw)
+                    k.initial_step_size = 0.37 if kind not in ("hmc", "nuts") else k.initial_step_size
+                    ks = k.init_state(jax.random.PRNGKey(1), K.STATE_AB)
+                    want_ss = 0.37 if kind not in ("hmc", "nuts") else 0.1
+                    pr = []
+                    if abs(float(ks.step_size) - want_ss) > 1e-7:
+                        pr.append(f"initial step size {float(ks.step_size)} instead of the configured {want_ss}")
+                    if kind in ("hmc", "nuts"):
+                        want = kw.get("initial_inverse_mass_matrix", jnp.ones(3) if diag else jnp.eye(3))
+                        if np.shape(ks.inverse_mass_matrix) != np.shape(want) or not np.allclose(np.asarray(ks.inverse_mass_matrix), np.asarray(want)):
+                            pr.append(f"initial inverse mass matrix {np.asarray(ks.inverse_mass_matrix).tolist()} instead of {np.asarray(want).tolist()}")
+                    return pr
+                nm = f"{kind}:init_state:{'given' if given else 'default'}-imm:{'diag' if diag else 'dense'}"
+                pr = chk.guarded(nm, f"[{nm}] init_state", init_facts)
+                if pr:
+                    chk.violation(nm, f"[{nm}] " + "; ".join(pr), dict(reproduced=True, observed=dict(problems=pr), note="concrete observation of the real kernel's init_state"))
     # translator validation
     for e in chk.encs:
         chk.validated_points += e.validate(chk.rng, npoints=1)
